@@ -15,6 +15,7 @@ node = {
   'attempts': None|int, 'delay': None|number, 'exceptions': None|[ 'ErrA'|'ErrA2'|'ErrB'|'ErrC'|'NodeFail', ...], 'use_default': bool
   'generic': bool             -> produced through build_node() from a generic base
   'generic_base': str         -> generic nodes with the same value are built from ONE shared variadic base class
+  'both_tags': 'tp'|'pt'      -> process-mode nodes: thread and process tags together, in this order
   'named': bool               -> explicit `name` attribute (else module_Class derived id)
   'extra_plain': int          -> number of extra plain annotated parameters with defaults
   'doc': bool
@@ -25,7 +26,7 @@ variant = {
                    'tail': 'ok'|'ErrA'|...,      # outcome after the list is exhausted
                    'label': str,                 # switch nodes: the label they return
                    'rec_n': int,                 # destinations: ask next_iteration while iteration tag < rec_n
-                   'rec_data': 'zero',           # destinations: pass the falsy additional_data 0 (default: iteration+1)
+                   'rec_data': 'zero'|'none_after_first',  # destinations: pass 0 / pass 1 then None (default: iteration+1)
                    'value': 'prov'|'none'|'zero'|'empty'|'false'|'list' } }
 }
 """
